@@ -3,7 +3,7 @@ from .. import panics, tables
 from ..callgraph import norm
 from ..cfg import Cfg, reach
 from ..common import body_by_name, callee_names, callgraph, family, logic_body
-from ..facts import callee, op_local, op_place
+from ..facts import callee, op_const, op_local, op_place
 from ..flow import Flow, identity_through
 from ..loopan import analyse, fn_name, report_violations
 from ..typestate import AC, EVSEND, ONESEND, RECV
@@ -22,6 +22,35 @@ AUDITED = {
     "Client::raw_command_list|call:Vec::with_capacity": (
         1, "capacity = number of frames already held in the reply"),
 }
+
+
+ERR_MAPPERS = ("core::result::Result::map_err", "core::result::Result::or_else", "core::result::Result::unwrap_or_else", "core::result::Result::ok",
+               "core::result::Result::unwrap_or", "core::result::Result::unwrap_or_default", "core::result::Result::is_err", "core::result::Result::is_ok",
+               "core::result::Result::err")
+
+
+def error_preserving(prog, co, t):
+    """Does this call hand the *error* of its Result argument on?  `map_err(f)` does only when f returns (something built
+    from) its argument — `Into::into`, a closure `|e| Wrapper(e)` — not when f logs the error and returns `()`;
+    `ok()`, `unwrap_or*`, `is_err()` drop it.  Other identity-like calls (transpose, ok_or, Try::branch, ...) keep it."""
+    ns = callee_names(t)
+    if not any(n in ERR_MAPPERS for n in ns):
+        return identity_through(t) is not None
+    if not any(n in ("core::result::Result::map_err", "core::result::Result::or_else") for n in ns) or len(t["args"]) < 2:
+        return False
+    c = op_const(t["args"][1])
+    if c is not None and "fn" in c:
+        return norm(c["fn"]["name"]) in ("core::convert::Into::into", "core::convert::From::from")
+    l = op_local(t["args"][1])
+    clo = None
+    if l is not None:
+        for bb, i, s2 in co.stmts():
+            if s2["k"] == "assign" and s2["place"]["l"] == l and not s2["place"]["p"] and s2["rv"]["k"] == "agg" and s2["rv"].get("agg") == "closure":
+                clo = prog.bodies.get(s2["rv"]["def"])
+    if clo is None:
+        return False
+    leaves, _ = Flow(clo).sources([0], through_call=identity_through, follow_mut=False)
+    return ("param", 2) in leaves
 
 
 def error_bindings(co, info):
@@ -44,7 +73,7 @@ def error_bindings(co, info):
                         changed = True
             # through transpose / ok_or / map_err / Try::branch the error stays inside
             for bb, t in co.calls():
-                if t["args"] and op_local(t["args"][0]) in whole and identity_through(t) is not None and t["dest"]["l"] not in whole \
+                if t["args"] and op_local(t["args"][0]) in whole and error_preserving(co.prog, co, t) and t["dest"]["l"] not in whole \
                         and not t["dest"]["p"]:
                     whole.add(t["dest"]["l"])
                     changed = True
@@ -94,7 +123,7 @@ def whole_and_errs(co, resl):
                     whole.add(s["place"]["l"])
                     changed = True
         for bb, t in co.calls():
-            if t["args"] and op_local(t["args"][0]) in whole and identity_through(t) is not None and t["dest"]["l"] not in whole and not t["dest"]["p"]:
+            if t["args"] and op_local(t["args"][0]) in whole and error_preserving(co.prog, co, t) and t["dest"]["l"] not in whole and not t["dest"]["p"]:
                 whole.add(t["dest"]["l"])
                 changed = True
     errs = []
@@ -108,7 +137,7 @@ def whole_and_errs(co, resl):
 
 def sinks_of(co, fl, start):
     """Sinks reached by a value: set of ('responder', bb) / ('event', bb) / ('return',)"""
-    derived, uses = fl.forward([start], through_call=lambda t, ai: identity_through(t) is not None)
+    derived, uses = fl.forward([start], through_call=lambda t, ai: error_preserving(co.prog, co, t))
     # aggregates wrapping the value (Err(e.into()), ConnectionClosed(e.into())) are followed by forward()
     out = set()
     for bb, ai in uses:
